@@ -463,6 +463,10 @@ func (x *e1) runClientRPC(r *rpcRec) {
 	}
 	if spec.HasMeta {
 		switch spec.MetaStyle {
+		case 4:
+			// the context already carries an older value of one key; AddPairs overrides it
+			ctx = drpcmetadata.Add(ctx, "ovr", "stale value that must be replaced")
+			ctx = drpcmetadata.AddPairs(ctx, spec.Meta)
 		case 3:
 			// already in the parent context
 		case 1:
@@ -747,6 +751,11 @@ func (x *e1) handlerStart(r *rpcRec, ctx context.Context) {
 func (x *e1) handlerReturn(r *rpcRec, err error) {
 	r.HReturned, r.HRetStep = true, x.d.Step
 	x.lastHRetSim = x.d.SimTime
+	// what the handler's context carries must still be the call's metadata when
+	// the handler is done (values must not live in a buffer that is reused)
+	if r.HStarted && r.Spec.HasMeta {
+		x.checkMeta(r)
+	}
 	r.H.Ended = true
 	x.d.Record(taskName(), "handler-return", fmt.Sprintf("rpc%d %s", r.Spec.Idx, errStr(err)))
 }
